@@ -272,8 +272,17 @@ def integrate(
     )
     all_states, all_params = init_fn(params, all_states, param_state, delta_t)
 
-    def _body_fun(state, externals):
-        state = step_fn(state, all_params, externals, external_inds, delta_t)
+    def _body_fun(state, inputs):
+        externals, is_padded_step = inputs
+        # `step_fn` updates the dictionary it is given in place, so hand it a copy.
+        new_state = step_fn(dict(state), all_params, externals, external_inds, delta_t)
+        # Steps that only exist to fill up `prod(checkpoint_lengths)` must not change
+        # the state, such that `return_states=True` returns the state at the last
+        # returned time point.
+        state = {
+            key: jnp.where(is_padded_step, state[key], new_state[key])
+            for key in new_state
+        }
         recs = jnp.asarray(
             [
                 state[rec_state][rec_ind]
@@ -317,10 +326,11 @@ def integrate(
     init_recording = jnp.expand_dims(init_recs, axis=0)
 
     # Run simulation.
+    is_padded_step = jnp.arange(length) >= nsteps_to_return
     all_states, recordings = nested_checkpoint_scan(
         _body_fun,
         all_states,
-        externals,
+        (externals, is_padded_step),
         length=length,
         nested_lengths=checkpoint_lengths,
     )
